@@ -26,7 +26,8 @@ type State struct {
 	blocksToRequest    []bitcoin.Hash32  // Blocks that need to be requested
 	pendingBlockSize   int               // The data size (bytes) of the blocks pending processing
 	lastSavedHash      bitcoin.Hash32
-	pendingSync        bool // The peer has notified us of all blocks. Now we just have to process to catch up.
+	processingHash     *bitcoin.Hash32 // The block taken by NextBlock that is still being processed
+	pendingSync        bool            // The peer has notified us of all blocks. Now we just have to process to catch up.
 	lock               sync.Mutex
 
 	// processingLock is held while a block is processed and while the chain is reverted for a
@@ -71,6 +72,7 @@ func (state *State) Reset() {
 	state.memPoolRequested = false
 	state.headersRequested = nil
 	state.blocksRequested = state.blocksRequested[:0]
+	state.processingHash = nil
 	state.blocksToRequest = state.blocksToRequest[:0]
 	state.pendingSync = false
 	state.pendingBlockSize = 0
